@@ -40,6 +40,8 @@ def check(out, ctx):
     step = max(1, len(cases) // (600 if ctx.tier == "quick" else 6000))
     sample = cases[::step] + [c for c in cases if c.g.meta.get("family") == "corpus"] + \
         [c for c in cases if len(c.inp.encode()) > 45 and any(ord(ch) > 127 for ch in c.inp)][:400]
+    hang = common.hanging(st)
+    sample = [c for c in sample if c.g.gid not in hang]
     # (grammar, rule, input, reference or None): the sampled stream cases, and the same inputs with a
     # line end / blanks appended (no model answer for those: the entry points are compared with each other)
     runs = [(c, c.inp, c.impl) for c in sample]
